@@ -445,9 +445,9 @@ fn sigint_case(ctx: &Ctx, env: &RealEnv, dir: &std::path::Path, case: u64, rng: 
         rep.violation("sigint-exit-zero", &format!("build interrupted by SIGINT but exit status 0; started {:?}", out.started()), mk());
     }
     // commands running when the signal arrived die; nothing may be started more than a grace period later
-    let late: Vec<String> = out.events.iter().filter(|e| e.kind == 'S' && e.ns > t_sig + 100_000_000).map(|e| e.step.clone()).collect();
+    let late: Vec<String> = out.events.iter().filter(|e| e.kind == 'S' && e.ns > t_sig + 500_000_000).map(|e| e.step.clone()).collect();
     if !late.is_empty() {
-        rep.violation("start-after-sigint", &format!("commands {:?} were started more than 100 ms after SIGINT", late), mk());
+        rep.violation("start-after-sigint", &format!("commands {:?} were started more than 500 ms after SIGINT", late), mk());
     }
     if out.started().len() < ntasks {
         rep.nontrivial.insert(fnv(format!("sigint{}{:?}", ntasks, out.started()).as_bytes()));
